@@ -614,6 +614,7 @@ def work_exhaustive(item: T.Tuple[T.Any, ...]) -> dict:
     alpha_name, depth, prefix, eol, deadline, do_fold = item[:6]
     only_full = len(item) > 6 and item[6]
     do_pipe = eol != '' and not only_full
+    full_extras = os.environ.get('VERIF_TIER', 'quick') != 'quick'
     pipe_len = 3
     alpha = gen.CORE if alpha_name == 'core' else gen.EXTENDED
     acc = Acc()
@@ -624,18 +625,20 @@ def work_exhaustive(item: T.Tuple[T.Any, ...]) -> dict:
     for k in range(depth - len(prefix) if only_full else 0, depth - len(prefix) + 1):
         for suffix in itertools.product(forms, repeat=k):
             lines = pre + list(suffix)
-            fs = check_stream(acc, phase, lines, by_line=(len(lines) <= 3))
-            if do_fold and len(lines) <= 3:
-                for rc in (0, 1):
-                    check_fold(acc, phase, lines, rc)
-                # the display modes: all of them for the short streams, one (rotating) for the longer ones
-                if len(lines) <= 2:
-                    for mode in MODES[1:]:
+            short = len(lines) <= 2
+            # the expensive extras: always for the short streams; in the quick tier every second length-3 stream gets them
+            extras = len(lines) <= 3 and (short or full_extras or (n & 1) == 0)
+            fs = check_stream(acc, phase, lines, by_line=extras)
+            if do_fold and extras:
+                if short:
+                    # every exit status x every display mode
+                    for mode in MODES:
                         for rc in (0, 1):
                             check_fold(acc, phase, lines, rc, mode=mode)
                 else:
-                    check_fold(acc, phase, lines, n & 1, mode=MODES[1 + n % 3])
-            if do_pipe and len(lines) <= pipe_len:
+                    check_fold(acc, phase, lines, (n >> 1) & 1)
+                    check_fold(acc, phase, lines, (n >> 2) & 1, mode=MODES[1 + (n >> 1) % 3])
+            if do_pipe and len(lines) <= pipe_len and (extras or any(l in ('\n', '\r\n') for l in lines)):
                 check_pipeline(acc, phase, ''.join(lines), 0)
             n += 1
             if (n & 1023) == 0 and time.time() > deadline:
@@ -781,6 +784,29 @@ MESON_BYTES: T.List[T.Tuple[str, bytes, bytes, int]] = [
 ]
 
 
+# every directive form, with and WITHOUT a reason, on ok / not ok / unnamed / unnumbered lines and on the plan: these (and a few
+# of the streams above) form the suite 'display' that is run under every console option set
+MESON_DIRECTIVES: T.List[T.Tuple[str, str]] = [
+    ('dir_bare_skip_and_xfail', '1..3\nok 1 - a\nok 2 - b # SKIP\nnot ok 3 - c # TODO\n'),
+    ('dir_bare_todo_pass', '1..2\nok 1 - a\nok 2 - b # TODO\n'),
+    ('dir_bare_lowercase', 'ok 1 # skip\nnot ok 2 # todo\nok 3 # Todo\n1..3\n'),
+    ('dir_glued', 'ok 1 #SKIP\nnot ok 2 #TODO\n1..2\n'),
+    ('dir_unnamed_unnumbered', 'ok # SKIP\nnot ok # TODO\nok\n1..3\n'),
+    ('dir_not_ok_skip_bare', '1..1\nnot ok 1 # SKIP\n'),
+    ('dir_with_reasons', '1..3\nok 1 a # SKIP no network\nnot ok 2 b # TODO caf\u00e9 \u6e2c\u8a66\nok 3 c # TODO   spaced   out\n'),
+    ('dir_skip_word_forms', 'ok 1 # skipped\nok 2 # SKIPPING because\nok 3 # Skipped:\n1..3\n'),
+    ('dir_plan_skip_bare', '1..0 # SKIP\n'),
+    ('dir_plan_skip_reason', '1..0 # skipped: nothing to do here\n'),
+    ('dir_not_a_directive', 'ok 1 # FIXME\nok 2 # TODOS\nok 3 # note: skip nothing\n1..3\n'),
+    ('dir_yaml_after_bare', 'TAP version 13\nok 1 # SKIP\n  ---\n  k: v\n  ...\nnot ok 2 # TODO\n  ---\n  k: v\n  ...\n1..2\n'),
+    ('dir_bailout_bare', '1..2\nok 1 # TODO\nBail out!\n'),
+]
+DISPLAY_ALSO = ('clean', 'failed', 'upass', 'bailout', 'toofew', 'allskip', 'yamlopen', 'unknownlines', 'skipwitherror',
+                'blank_then_fail', 'crlf_clean')
+DISPLAY_VARIANTS: T.List[T.List[str]] = [['--verbose'], ['--print-errorlogs'], ['--verbose', '--print-errorlogs', '--num-processes', '1'],
+                                         ['--verbose', '--no-stdsplit'], ['--quiet']]
+
+
 def _read_testlog(bdir: str, logbase: str) -> T.Dict[str, dict]:
     results: T.Dict[str, dict] = {}
     with open(os.path.join(bdir, 'meson-logs', logbase + '.json'), encoding='utf-8') as f:
@@ -812,7 +838,7 @@ def _invoke(job: T.Tuple[T.Any, ...]) -> dict:
     if len(job) > 4 and job[4]:
         r = runner.meson_cold(argv, cwd=src, env=STRICT_CONSOLE, timeout=90)
     else:
-        r = runner.meson(argv, cwd=src, timeout=180)
+        r = runner.meson(argv, cwd=src, timeout=90)
     out: dict = {'logbase': logbase, 'args': args, 'rc': r.rc, 'timed_out': r.timed_out, 'traceback': r.traceback, 'brief': r.brief(),
                  'results': None, 'error': None, 'junit': None, 'strict_console': len(job) > 4 and bool(job[4])}
     try:
@@ -926,6 +952,8 @@ def _judge(chk: common.Check, inv: dict, cases: T.Dict[str, dict], label: str) -
             chk.count('observed:meson-test:stream-with-empty-line-before-more')
         if '--verbose' in inv['args'] or tn.startswith('serv_'):
             chk.count('observed:meson-test:verbose-' + ('serial' if _runs_serially(inv, tn, cases) else 'parallel'))
+        if label.startswith('display:') and any('#' in l and not l.startswith('#') for l in lines):
+            chk.count('observed:meson-test:directive-lines-under-console-options')
         if c.get('bytes'):
             chk.count('observed:meson-test:non-utf8-output' + (':strict-console' if inv.get('strict_console') else ''))
         if c.get('stderr'):
@@ -1019,13 +1047,18 @@ def meson_sample(chk: common.Check) -> None:
     mb = ["project('c18tap', meson_version: '>=1.0')", "py = find_program('/venv/bin/python')", "emit = files('emit.py')",
           "emit2 = files('emit2.py')"]
     cases: T.Dict[str, dict] = {}
-    texts: T.List[T.Tuple[str, str]] = [(nm, ''.join(l + '\n' for l in lines)) for nm, lines in sample] + MESON_RAW
+    texts: T.List[T.Tuple[str, str]] = [(nm, ''.join(l + '\n' for l in lines)) for nm, lines in sample] + MESON_RAW + MESON_DIRECTIVES
+    display_names: T.List[str] = []
     for i, (nm, text) in enumerate(texts):
         files[f's{i:02d}.tap'] = text.encode('utf-8')
         for rc in (0, 3 if i % 2 else 1):
             tn = f's{i:02d}_{nm}_rc{rc}'
             cases[tn] = {'lines': split_stdout(text), 'rc': rc}
-            mb.append(f"test('{tn}', py, args: [emit, files('s{i:02d}.tap'), '{rc}'], protocol: 'tap', suite: 'streams')")
+            suite = "'streams'"
+            if nm.startswith('dir_') or nm in DISPLAY_ALSO or nm.startswith('randomblank'):
+                suite = "['streams', 'display']"
+                display_names.append(tn)
+            mb.append(f"test('{tn}', py, args: [emit, files('s{i:02d}.tap'), '{rc}'], protocol: 'tap', suite: {suite})")
     stderr_names: T.List[str] = []
     for i, (nm, out, err, rc) in enumerate(MESON_STDERR):
         files[f'e{i:02d}.out'] = out.encode('utf-8')
@@ -1095,6 +1128,10 @@ def meson_sample(chk: common.Check) -> None:
     for k, one in enumerate(by_prefix('_failed_', 0) + by_prefix('_bailout_', 0) + by_prefix('_clean_', 1) + by_prefix('_upass_', 0) +
                             by_prefix('_clean_', 0)):
         jobs.append((f'verbose-single:{one}', f'single{k}', [one], ['--verbose', one]))
+    # every console option set over the 'display' suite (all directive forms with and without reason, every kind of event)
+    for k, variant in enumerate(DISPLAY_VARIANTS):
+        jobs.append((f'display:{"+".join(a for a in variant if a.startswith("--"))}', f'display{k}', display_names,
+                     variant + ['--suite', 'display']))
     # undecodable bytes reach the console, the logs and the reports: a real interpreter with a strictly encoding console
     cold = set()
     for k, variant in enumerate(([], ['--verbose'], ['--print-errorlogs', '--num-processes', '1'])):
@@ -1260,7 +1297,7 @@ def main() -> int:
     n_struct = 20000 if quick else 1000000
     n_arb = 6000 if quick else 200000
     t1 = time.time()
-    rdeadline = t1 + (max(10.0, min(40.0, 150.0 - (t1 - t0))) if quick else max(60.0, min(300.0, 900.0 - (t1 - t0))))
+    rdeadline = t1 + (max(10.0, min(30.0, 120.0 - (t1 - t0))) if quick else max(60.0, min(300.0, 900.0 - (t1 - t0))))
     per = 500 if quick else 5000
     ritems: T.List[T.Tuple[str, int, int, float]] = []
     base = chk.rng.randrange(1 << 30)
@@ -1336,6 +1373,7 @@ def main() -> int:
                  ('observed:meson-test-exit:all-good', 2), ('observed:meson-test-exit:some-bad', 8),
                  ('observed:meson-test:non-utf8-output:strict-console', 30), ('monitor:junit-report', 200),
                  ('observed:junit:bad', 50), ('observed:junit:good', 20), ('monitor:junit-root-totals', 10),
+                 ('observed:meson-test:directive-lines-under-console-options', 100),
                  ('observed:meson-test:verbose-serial', 30), ('observed:meson-test:verbose-parallel', 5),
                  ('observed:fold-mode:serial+verbose', 500), ('observed:fold-mode:serial', 500), ('observed:fold-mode:parallel+verbose', 500),
                  ('contract:complete.nonzero-exit-is-bad', 100), ('pinned-streams', len(PINNED)),
